@@ -319,10 +319,6 @@ loop:
 				return b, ErrUnexpectedSize
 			}
 
-			if b[0] == c {
-				b = b[1:]
-			}
-
 			scratch := acquireScratch()
 			dst := *scratch
 
@@ -380,10 +376,6 @@ loop:
 				// The field is cut short: its value is in the bytes that have
 				// not arrived yet.
 				return b, ErrUnexpectedSize
-			}
-
-			if b[0] == c {
-				b = b[1:]
 			}
 
 			scratch := acquireScratch()
